@@ -4,6 +4,7 @@ import (
 	"fmt"
 	"time"
 
+	simplefixgo "github.com/b2broker/simplefix-go"
 	"github.com/b2broker/simplefix-go/session"
 	fixgen "github.com/b2broker/simplefix-go/tests/fix44"
 
@@ -88,10 +89,41 @@ func c08(w *World) {
 	sendApp := func(i int) {
 		_ = s.Send(fixgen.NewMarketDataRequest().SetMDReqID("a" + itoa(i)).SetSubscriptionRequestType("1").SetMarketDepth(1))
 	}
+	var failed []failedSend
+	// an application handler that refuses the one message it is told to refuse
+	refuseID := ""
+	s.Router.HandleOutgoing(fixgen.MsgTypeMarketDataRequest, func(m simplefixgo.SendingMessage) bool {
+		if md, ok := m.(*fixgen.MarketDataRequest); ok && refuseID != "" && md.MDReqID() == refuseID {
+			refuseID = ""
+			return false
+		}
+		return true
+	})
 	actions := 3 + w.W.Draw(w.Deep(20))
 	for i := 0; i < actions && !sc.P.EOF; i++ {
 		d := lastOut().Add(N) // the running deadline
-		switch w.W.Pick(3, 3, 3, 3, 2, 2, 2, 3, 3) {
+		switch w.W.Pick(3, 3, 3, 3, 2, 2, 2, 3, 3, 3) {
+		case 9:
+			// a send that fails somewhere inside the period (the store cannot save it, or an outgoing
+			// handler refuses it): nothing is transmitted, so the deadline of the last real transmission stands
+			sleepUntil(d.Add(-time.Duration(1+w.W.Draw(int(N/time.Millisecond)-1)) * time.Millisecond))
+			before := len(sc.P.Msgs())
+			kind := "failed-save"
+			if w.W.Chance(1, 2) {
+				sc.Cfg.Store.FailType = fixgen.MsgTypeMarketDataRequest
+			} else {
+				kind = "refused-send"
+				refuseID = "a" + itoa(i)
+			}
+			at := time.Now()
+			sendApp(i)
+			sc.Settle()
+			sc.Cfg.Store.FailType, refuseID = "", ""
+			if n := len(filterType(sc.P.Msgs()[before:], fixgen.MsgTypeMarketDataRequest)); n == 0 {
+				failed = append(failed, failedSend{at, kind})
+				w.Probe("failed_send_inside_period")
+				w.Probe(kind)
+			}
 		case 8:
 			// outbound messages the application did not send: an echo, a Reject, a retransmission —
 			// each of them postpones the next unsolicited Heartbeat by a full interval
@@ -168,6 +200,7 @@ func c08(w *World) {
 		return
 	}
 	// from the instant the session logged on
+	reported := map[string]bool{}
 	prev, prevType := logonAt, "logon"
 	for i := 0; i <= len(ms); i++ {
 		var next time.Time
@@ -180,8 +213,19 @@ func c08(w *World) {
 			next = end
 		}
 		if gap := next.Sub(prev); gap > N+slack {
-			w.Violate("silent-too-long", fmt.Sprintf("N=%d", n), fmt.Sprintf("nothing was transmitted for %v after the %s at %s; N=%ds, bound %v", gap, prevType, stamp(prev, w), n, N+slack))
-			break
+			// a send that failed inside the gap names the circumstance (nothing was transmitted by it)
+			key := fmt.Sprintf("N=%d", n)
+			for _, kind := range []string{"failed-save", "refused-send"} { // a refusal anywhere in the gap names it
+				for _, f := range failed {
+					if f.kind == kind && !f.at.Before(prev) && !f.at.After(next) {
+						key = "after-" + f.kind
+					}
+				}
+			}
+			if !reported[key] {
+				reported[key] = true
+				w.Violate("silent-too-long", key, fmt.Sprintf("nothing was transmitted for %v after the %s at %s; N=%ds, bound %v", gap, prevType, stamp(prev, w), n, N+slack))
+			}
 		}
 		if i < len(ms) {
 			prev, prevType = next, ms[i].Type
@@ -208,6 +252,11 @@ func c08(w *World) {
 		w.Probe("timer_heartbeat")
 	}
 	sc.Teardown()
+}
+
+type failedSend struct {
+	at   time.Time
+	kind string
 }
 
 func sleepUntil(t time.Time) {
